@@ -542,6 +542,22 @@ func checkC05(h *XHistory) {
 				}
 			}
 		}
+		if !ok && u.Spec.Kind != "udp" {
+			// the call's own query never reached the server (it returned first),
+			// so its wire id is unknown here; a reply that the server itself
+			// sent under a foreign id may legitimately have met that id
+			seen := false
+			for _, q := range u.Queries {
+				if q.Token == c.C.Token {
+					seen = true
+				}
+			}
+			for _, r := range u.Replies {
+				if !seen && r.Token == c.Meta.Token && r.Serial == c.Meta.Serial && r.Kind == "wrong_id" {
+					ok = true
+				}
+			}
+		}
 		if !ok {
 			s.Fail("C05", "misrouted-reply", "%s returned the reply generated for token %s serial %d, which the server never sent with this exchange's connection and wire id", name, c.Meta.Token, c.Meta.Serial)
 		}
